@@ -165,6 +165,10 @@ def step (_ : Unit) (toks : List String) : Unit × String :=
     match pIdent i with
     | some i => ((), s!"s={encB (spiffe i)}")
     | none => ((), "bad-op")
+  | ["prec", a, b] =>
+    match decB a, decB b with
+    | some a, some b => ((), s!"p={precOf a b}")
+    | _, _ => ((), "bad-op")
   | ["esc", b] =>
     match decB b with
     | some b => ((), s!"s={encB (escapePath b)}")
